@@ -184,12 +184,13 @@ FamRelaxed(z) == {C4("relaxed", t, Var("v"), VD(t, FALSE, Null), [v |-> v], TRUE
 
 OutStrs == {Str("abc"), Str("42"), Str("1.5"), Str("4294967297"), Str("true"), Str("RED"), Str("BLUE"), Str(T1), Str("")}
            \cup {Str(s) : s \in LenientTimes}
-\* values of Go types no scalar knows: a map, a struct, a channel, and values of NAMED types whose underlying kind a scalar
-\* does know (type Age int8, type Word string ...): they are not the types a resolver is documented to return for a leaf
-Others == {[k |-> "other", s |-> x] : x \in {"map", "struct", "chan", "nint8", "nint16", "nint32", "nint64", "nint", "nuint8", "nfloat64", "nfloat32",
-                                               "nstring", "nbool"}}
+Others == {[k |-> "other", s |-> "map"], [k |-> "other", s |-> "struct"], [k |-> "other", s |-> "chan"]}
+\* values of NAMED Go types (type Age int8, type Word string ...) whose underlying basic type a scalar knows
+Nameds == {Named_(u) : u \in {Num("i1", "int8"), Num("i1", "int16"), Num("i1", "int32"), Num("i2p31m1", "int32"), Num("i1", "int64"), Num("i2p32p1", "int64"),
+                              Num("i1", "int"), Num("i1", "uint8"), Num("f1p5", "float64"), Num("f1p5", "float32"), Num("i1", "float64"),
+                              Str("RED"), Str("42"), Bool(TRUE)}}
 NilPtr == [k |-> "nilptr"]
-GLeaves == NumAllKinds \cup OutStrs \cup Bools \cup Syms \cup {Tim(T1), Null, NilPtr} \cup Others
+GLeaves == NumAllKinds \cup OutStrs \cup Bools \cup Syms \cup {Tim(T1), Null, NilPtr} \cup Others \cup Nameds
            \cup {GList("iface", "", <<Num("i1", "int")>>), GList("typed", "int", <<Num("i1", "int")>>)}
 C5(fam, t, gv) == [fam |-> fam, t |-> t, gv |-> gv]
 
